@@ -1067,6 +1067,28 @@ func c08Extra(x *c08, funcs []*FuncInfo, allPaths map[*FuncInfo][]*Path) {
 			o.Breaks = "a coordinate outside the bounds does not panic: it reads or writes another row's cell (or past the slice)"
 		}
 	}
+	// ---- dimension accessors
+	for _, acc := range []struct {
+		name string
+		f    *types.Var
+	}{{"arrays.(Array2D).Width", x.fW}, {"arrays.(Array2D).Height", x.fH}} {
+		fi := c.P.Func(acc.name)
+		if fi == nil {
+			continue
+		}
+		ps := allPaths[fi]
+		ok := len(ps) == 1 && len(ps[0].Rets) == 1
+		if ok {
+			r := x.resolve(ps[0].Rets[0])
+			ok = isFieldLoad(r, acc.f, nil) || (r.Op == "field" && sameField(r.Obj, acc.f))
+			for i := range ps[0].Events {
+				if e := &ps[0].Events[i]; !(e.Kind == "store" && e.Addr.Op == "alloc") {
+					ok = false // anything but the spill of the value receiver
+				}
+			}
+		}
+		R.Decide(ok, "accessors", fi.Name, "dimension", c.pos(fi), "returns the "+acc.f.Name()+" field", "does not return the "+acc.f.Name()+" of the array")
+	}
 	// ---- span-exact
 	for _, row := range []struct {
 		name   string
